@@ -97,17 +97,14 @@ theorem mem_classLocs (t : Table) (idx : List Nat) (l : Loc) (h : l ∈ classLoc
 theorem groups_lt (t : Table) (idx : List Nat) (h : idx ∈ Table.groups t) : ∀ i ∈ idx, i < t.length :=
   fun i hi => (Table.mem_groups_flatten t i).mp (List.mem_flatten.mpr ⟨idx, h, hi⟩)
 
-/-- **no `Joined` member, no overflow**: K12A is the only way to panic -/
-theorem noStale_of_noTopJoin (t : Table) (h : Table.noTopJoin t = true) : Table.noStale t = true := by
-  rw [noStale_iff]
-  intro idx hidx
+/-- a class without a `Joined` member: the pushed list is non-empty and not longer than the class -/
+theorem classP_of_no_join (t : Table) (idx : List Nat) (hidx : idx ∈ Table.groups t)
+    (h : ∀ l ∈ classLocs t idx, l.isJoined = false) :
+    classP t idx ≠ [] ∧ (classP t idx).length ≤ idx.length := by
   have hlt := groups_lt t idx hidx
   have hne := Table.groups_ne_nil t idx hidx
-  have hj : ∀ x ∈ sortLocs (classLocs t idx), x.isJoined = false := by
-    intro x hx
-    obtain ⟨i, _, f, hf, rfl⟩ := mem_classLocs t idx x ((sortLocs_perm _).mem_iff.mp hx)
-    simp only [Table.noTopJoin, List.all_eq_true, Bool.not_eq_true'] at h
-    exact h f (List.mem_of_getElem? hf)
+  have hj : ∀ x ∈ sortLocs (classLocs t idx), x.isJoined = false :=
+    fun x hx => h x ((sortLocs_perm _).mem_iff.mp hx)
   have hl := pushAllD_length pushFuel (sortLocs (classLocs t idx)) [] (classForce t idx) hj
   have hlen : (sortLocs (classLocs t idx)).length = idx.length := by
     rw [sortLocs_length, classLocs_length t idx hlt]
